@@ -175,7 +175,7 @@ func TestC09(t *testing.T) {
 
 	rapid.Check(t, func(rt *rapid.T) {
 		key, kc := draw32(rt, "key")
-		n, lc := gen.Len(rt, "len", 2000, 64, 256)
+		n, lc := lenMix(rt, "len", 2000, 25, 64, 256)
 		in, fc := gen.Bytes(rt, "in", n)
 		alias := rapid.Bool().Draw(rt, "alias")
 		extra := rapid.IntRange(0, 3).Draw(rt, "extra")
